@@ -41,13 +41,30 @@ structure NodeRef where
   last : Nat
   deriving DecidableEq, Repr, Inhabited
 
+/-- structure of a flat variable as exported / as received by the API: type (0 continuous, 1 integer) and
+    which bounds are infinite (the export prints them as `∓1.79769e+308`) -/
+structure VarInfo where
+  ty : Nat
+  lbInf : Bool
+  ubInf : Bool
+  deriving DecidableEq, Repr, Inhabited
+
+/-- structure of a flat objective: sense (0 min, 1 max), variables of the linear terms, variable pairs of the
+    quadratic terms (numbers of terms = lengths; coefficients are not compared) -/
+structure ObjInfo where
+  sense : Nat
+  lin : List Nat
+  q1 : List Nat
+  q2 : List Nat
+  deriving DecidableEq, Repr, Inhabited
+
 inductive Rec where
   | comment
-  | var (i : Nat) (fromNl : Bool)
+  | var (i : Nat) (fromNl : Bool) (info : VarInfo)
   | nlDefVar (i : Nat)
   | nlObj (i : Nat)
   | nlCon (i : Nat) (logical : Bool)
-  | obj (i : Nat)
+  | obj (i : Nat) (info : ObjInfo)
   | conNew (ty : Str) (i : Nat)
   | conStatus (ty : Str) (i : Nat) (name : Str) (unused bridged final : Bool)
   | conGroup (ty : Str) (grp : Nat)
@@ -76,6 +93,55 @@ def nodeRefs? : JList → Option (List NodeRef)
 def isTwoNums : Json → Bool
   | .arr (.cons (.num _) (.cons (.num _) .nil)) => true
   | _ => false
+
+/-- `[lb, ub]` -> which of the two is printed as the clamped infinity -/
+def boundInf? (clamp : Str) : Json → Option Bool
+  | .num t => some (t = clamp)
+  | .str _ => some true       -- a non-finite bound the exporter did not clamp (e.g. an upper bound `-inf`): written as a string
+  | _ => none
+
+def boundsInf? : Json → Option (Bool × Bool)
+  | .arr (.cons a (.cons b .nil)) =>
+    match boundInf? cl!"-1.79769e+308" a, boundInf? cl!"1.79769e+308" b with
+    | some x, some y => some (x, y)
+    | _, _ => none
+  | _ => none
+
+def natList? : JList → Option (List Nat)
+  | .nil => some []
+  | .cons (.num t) xs =>
+    match tokNat? t, natList? xs with
+    | some n, some ns => some (n :: ns)
+    | _, _ => none
+  | .cons _ _ => none
+
+def numCount? : JList → Option Nat
+  | .nil => some 0
+  | .cons (.num _) xs => (numCount? xs).map (· + 1)
+  | .cons (.str _) xs => (numCount? xs).map (· + 1)     -- non-finite coefficients are written as strings
+  | .cons _ _ => none
+
+/-- `{"coefs": [...], "vars": [...]}` with equally many entries -> the variables -/
+def linTerms? : Json → Option (List Nat)
+  | .obj ms =>
+    match ms.get? cl!"coefs", ms.get? cl!"vars" with
+    | some (.arr cs), some (.arr vs) =>
+      match numCount? cs, natList? vs with
+      | some n, some l => if n = l.length then some l else none
+      | _, _ => none
+    | _, _ => none
+  | _ => none
+
+/-- `{"coefs": [...], "vars1": [...], "vars2": [...]}` with equally many entries -/
+def quadTerms? : Json → Option (List Nat × List Nat)
+  | .obj ms =>
+    match ms.get? cl!"coefs", ms.get? cl!"vars1", ms.get? cl!"vars2" with
+    | some (.arr cs), some (.arr v1), some (.arr v2) =>
+      match numCount? cs, natList? v1, natList? v2 with
+      | some n, some l1, some l2 => if n = l1.length && n = l2.length then some (l1, l2) else none
+      | _, _, _ => none
+    | _, _, _ => none
+  | _ => none
 
 def nodup : List Str → Bool
   | [] => true
@@ -117,7 +183,10 @@ def classify (ms : JMems) : Option Rec :=
       else none
   else if ms.has cl!"VAR_index" then
     match ms.getNat? cl!"VAR_index", flag? ms cl!"is_from_nl", ms.getNat? cl!"type", ms.get? cl!"bounds" with
-    | some i, some b, some _, some bd => if isTwoNums bd then some (.var i b) else none
+    | some i, some b, some ty, some bd =>
+      match boundsInf? bd with
+      | some (li, ui) => some (.var i b ⟨ty, li, ui⟩)
+      | none => none
     | _, _, _, _ => none
   else if ms.has cl!"NL_COMMON_EXPR_index" then
     match ms.getNat? cl!"NL_COMMON_EXPR_index" with
@@ -135,9 +204,12 @@ def classify (ms : JMems) : Option Rec :=
       else none
     | _, _ => none
   else if ms.has cl!"OBJECTIVE_index" then
-    match ms.getNat? cl!"OBJECTIVE_index", ms.getNat? cl!"sense" with
-    | some i, some _ => some (.obj i)
-    | _, _ => none
+    match ms.getNat? cl!"OBJECTIVE_index", ms.getNat? cl!"sense", ms.get? cl!"lin_terms", ms.get? cl!"qp_terms" with
+    | some i, some sn, some lt, some qt =>
+      match linTerms? lt, quadTerms? qt with
+      | some l, some (a, b) => some (.obj i ⟨sn, l, a, b⟩)
+      | _, _ => none
+    | _, _, _, _ => none
   else none
 
 /-- a delivered constraint as the recording ModelAPI saw it -/
@@ -153,10 +225,44 @@ structure Delivered where
   nlObjs : Nat
   nlAlgCons : Nat
   nlLogCons : Nat
-  nVars : Nat
-  nObjs : Nat
+  vars : List VarInfo      -- `AddVariables`
+  objs : List ObjInfo      -- `SetLinearObjective` / `SetQuadraticObjective`, by index
   cons : List DCon
   deriving Repr, Inhabited
+
+def Delivered.nVars (d : Delivered) : Nat := d.vars.length
+def Delivered.nObjs (d : Delivered) : Nat := d.objs.length
+
+def hasVar (g : List Rec) (i : Nat) (b : Bool) : Bool :=
+  g.any (fun r => match r with | .var j b' _ => j == i && b' == b | _ => false)
+
+def hasObj (g : List Rec) (i : Nat) : Bool :=
+  g.any (fun r => match r with | .obj j _ => j == i | _ => false)
+
+/-- the last record of flat variable `i` in the file -/
+def lastVar : List Rec → Nat → Option VarInfo
+  | [], _ => none
+  | r :: g, i =>
+    match lastVar g i with
+    | some x => some x
+    | none => match r with
+      | .var j _ info => if j = i then some info else none
+      | _ => none
+
+/-- the last record of flat objective `i` in the file -/
+def lastObj : List Rec → Nat → Option ObjInfo
+  | [], _ => none
+  | r :: g, i =>
+    match lastObj g i with
+    | some x => some x
+    | none => match r with
+      | .obj j info => if j = i then some info else none
+      | _ => none
+
+/-- `p i l[i]` for all positions, counting from `i0` -/
+def allIdx {α : Type} (p : Nat → α → Bool) : Nat → List α → Bool
+  | _, [] => true
+  | i, a :: l => p i a && allIdx p (i + 1) l
 
 def isNew (ty : Str) : Rec → Bool
   | .conNew t _ => t = ty
@@ -213,11 +319,11 @@ def statusOk : Rec → Bool
 /-- per-record conditions -/
 def recOk (g : List Rec) (d : Delivered) : Rec → Bool
   | .comment => true
-  | .var i b => i < d.nVars && (b == decide (i < d.nlVars))
+  | .var i b _ => i < d.nVars && (b == decide (i < d.nlVars))
   | .nlDefVar _ => true
   | .nlObj i => i < d.nlObjs
   | .nlCon i l => i < d.nlAlgCons + d.nlLogCons && (l == decide (d.nlAlgCons ≤ i))
-  | .obj i => i < d.nObjs
+  | .obj i _ => i < d.nObjs
   | .conNew ty i => i < classSize g ty && countNew g ty i == 1 && countStatus g ty i == 1
   | .conStatus ty i nm u b f => statusOk (.conStatus ty i nm u b f) && g.contains (.conNew ty i)
   | .conGroup _ _ => true
@@ -225,12 +331,14 @@ def recOk (g : List Rec) (d : Delivered) : Rec → Bool
 
 /-- the validator -/
 def checkGraph (g : List Rec) (d : Delivered) : Bool :=
-  (List.range d.nlVars).all (fun i => g.contains (.var i true)) &&
+  (List.range d.nlVars).all (fun i => hasVar g i true) &&
   (List.range d.nlObjs).all (fun i => g.contains (.nlObj i)) &&
   (List.range (d.nlAlgCons + d.nlLogCons)).all (fun i => g.contains (.nlCon i (decide (d.nlAlgCons ≤ i)))) &&
-  (List.range d.nVars).all (fun i => g.contains (.var i (decide (i < d.nlVars)))) &&
-  (List.range d.nObjs).all (fun i => g.contains (.obj i)) &&
+  (List.range d.nVars).all (fun i => hasVar g i (decide (i < d.nlVars))) &&
+  (List.range d.nObjs).all (fun i => hasObj g i) &&
   g.all (recOk g d) &&
+  allIdx (fun i o => lastVar g i == some o) 0 d.vars &&
+  allIdx (fun i o => lastObj g i == some o) 0 d.objs &&
   (markedDelivered g == d.cons.map (fun c => (c.ty, c.name))) &&
   d.cons.all (fun c => g.contains (.conGroup c.ty c.grp))
 
@@ -260,16 +368,18 @@ def firstBad (g : List Rec) (d : Delivered) : Option (Nat × Rec) :=
   (g.zipIdx.find? (fun p => !recOk g d p.1)).map (fun p => (p.2, p.1))
 
 def recTag : Rec → String
-  | .comment => "comment" | .var _ _ => "var" | .nlDefVar _ => "nldefvar" | .nlObj _ => "nlobj"
-  | .nlCon _ _ => "nlcon" | .obj _ => "obj" | .conNew _ _ => "connew" | .conStatus _ _ _ _ _ _ => "constatus"
+  | .comment => "comment" | .var _ _ _ => "var" | .nlDefVar _ => "nldefvar" | .nlObj _ => "nlobj"
+  | .nlCon _ _ => "nlcon" | .obj _ _ => "obj" | .conNew _ _ => "connew" | .conStatus _ _ _ _ _ _ => "constatus"
   | .conGroup _ _ => "congroup" | .link _ _ _ _ => "link"
 
 def failReasons (g : List Rec) (d : Delivered) : List String :=
-  (if (List.range d.nlVars).all (fun i => g.contains (.var i true)) then [] else ["nl-var-missing"]) ++
+  (if (List.range d.nlVars).all (fun i => hasVar g i true) then [] else ["nl-var-missing"]) ++
   (if (List.range d.nlObjs).all (fun i => g.contains (.nlObj i)) then [] else ["nl-obj-missing"]) ++
   (if (List.range (d.nlAlgCons + d.nlLogCons)).all (fun i => g.contains (.nlCon i (decide (d.nlAlgCons ≤ i)))) then [] else ["nl-con-missing"]) ++
-  (if (List.range d.nVars).all (fun i => g.contains (.var i (decide (i < d.nlVars)))) then [] else ["delivered-var-missing"]) ++
-  (if (List.range d.nObjs).all (fun i => g.contains (.obj i)) then [] else ["delivered-obj-missing"]) ++
+  (if (List.range d.nVars).all (fun i => hasVar g i (decide (i < d.nlVars))) then [] else ["delivered-var-missing"]) ++
+  (if (List.range d.nObjs).all (fun i => hasObj g i) then [] else ["delivered-obj-missing"]) ++
+  (if allIdx (fun i o => lastVar g i == some o) 0 d.vars then [] else ["delivered-var-differs"]) ++
+  (if allIdx (fun i o => lastObj g i == some o) 0 d.objs then [] else ["delivered-obj-differs"]) ++
   (match firstBad g d with
    | some (i, r) => ["bad-" ++ recTag r ++ "@" ++ toString i]
    | none => []) ++
